@@ -97,13 +97,29 @@ def raw_slots(m, spec, kind, excl, with_border):
     return raw, is_poly
 
 
+_FORM = [0]
+
+
 def _trav(t, order):
+    """traverse(order) in its three call forms in turn: positional, keyword, and (for BFS) the default"""
+    _FORM[0] += 1
+    k = _FORM[0] % 3
+    it = t.traverse(order) if k == 0 else (t.traverse(order=order) if (k == 1 or order != "BFS") else t.traverse())
     out = []
-    for k, (node, par) in enumerate(t.traverse(order)):
+    for j, (node, par) in enumerate(it):
         out.append([int(node), opt(par)])
-        if k > 100000:
+        if j > 100000:
             raise RuntimeError("traverse does not terminate")
     return out
+
+
+def failed_call(obj):
+    """a call that legitimately raises (unknown traversal order); the object is used again afterwards and must be as before"""
+    try:
+        for _ in obj.traverse("breadth-first?"):
+            break
+    except Exception:  # noqa
+        pass
 
 
 TREE_READS = {
@@ -142,6 +158,7 @@ def tree_obs(t, k=0, unstable=None, label="tree"):
     change the answers nor depend on what was read before; the LAST reads are reported"""
     o1, o2 = _orders(TREE_READS, k)
     s1 = snapshot(t, TREE_READS, o1)
+    failed_call(t)
     s2 = snapshot(t, TREE_READS, o2)
     if unstable is not None:
         for name in TREE_READS:
@@ -161,6 +178,11 @@ def forest_obs(f, k=0, unstable=None):
     else:
         f1 = snapshot(f, FOREST_READS, o1)
         trees1 = [snapshot(t, TREE_READS, sorted(TREE_READS)) for t in f.trees]
+    # the caller edits the list forest.edges handed out, and makes a call that raises: neither may show anywhere
+    handed = f.edges
+    handed.append((10 ** 6, 10 ** 6))
+    del handed[:1]
+    failed_call(f)
     f2 = snapshot(f, FOREST_READS, o2)
     trees2 = [tree_obs(t, k + j, unstable, "forest.trees[%d]" % j) for j, t in enumerate(f.trees)]
     f3 = snapshot(f, FOREST_READS, o1)
@@ -207,6 +229,27 @@ def as_repr(x, rep):
     return {"int32": np.int32, "int64": np.int64, "uint8": np.uint8}[rep](x)
 
 
+def excl_repr(excl, rep):
+    """the exclusion set in another representation: a set of numpy integers, a frozenset"""
+    if excl is None:
+        return None
+    if rep == "np":
+        import numpy as np
+        return set(np.int64(x) for x in excl)
+    if rep == "frozen":
+        return frozenset(excl)
+    return set(excl)
+
+
+def flag_repr(b, rep):
+    if rep == "np":
+        import numpy as np
+        return np.bool_(b)
+    if rep == "int":
+        return 1 if b else 0
+    return b
+
+
 def run_case(case, meshes=None, keep=None):
     """one object built, computed and observed.  meshes = (mesh under test, mesh for the observations) when the caller
     shares them between several objects (sessions); keep: list receiving the object built"""
@@ -238,29 +281,38 @@ def run_case(case, meshes=None, keep=None):
                 obj.compute()
         return obj
     excl = case.get("excl")
-    excl_set = None if excl is None else set(excl)
+    excl_set = None if excl is None else set(excl)          # what the oracle / the slot extraction use
+    excl_arg = excl_repr(excl, case.get("excl_repr"))       # what the constructor receives (a set, in some representation)
+    ab_arg = flag_repr(bool(case.get("avoid_boundary", False)), case.get("flag_repr"))
+    form = case.get("call_form", "mixed")
+    ROOTKW = {"edge": "starting_vertex", "face": "starting_face", "cell": "starting_cell"}
+    EXKW = {"edge": "avoid_edges", "face": "forbidden_edges", "cell": "forbidden_faces"}
+
+    def build(cls, named):
+        """named: ordered (parameter name, value) pairs after `mesh`; the same call positionally, by keyword, or mixed"""
+        if form == "pos":
+            return cls(m, *[v for _, v in named])
+        if form == "kw":
+            return cls(mesh=m, **dict(named))
+        return cls(m, *[v for _, v in named[:1]], **dict(named[1:]))
+
     res = {"op": op, "kind": kind}
     res.update(tables(m_obs, spec))
     if op == "tree":
         raw, poly = raw_slots(m_obs, spec, kind, excl_set, True)
         res.update({"raw": raw, "polyline": poly, "n": len(raw)})
+        cls = {"edge": T.EdgeSpanningTree, "face": T.FaceSpanningTree, "cell": T.CellSpanningTree}[kind]
         try:
-            if omit:
-                t = {"edge": T.EdgeSpanningTree, "face": T.FaceSpanningTree, "cell": T.CellSpanningTree}[kind](m, root_arg)
-                if keep is not None:
-                    keep.append(t)
-                t = t()
-            elif kind == "edge":
-                t = T.EdgeSpanningTree(m, root_arg, avoid_boundary=bool(case.get("avoid_boundary", False)),
-                                       avoid_edges=excl_set)
-            elif kind == "face":
-                t = T.FaceSpanningTree(m, root_arg, excl_set)
-            else:
-                t = T.CellSpanningTree(m, root_arg, excl_set)
+            named = [(ROOTKW[kind], root_arg)]
             if not omit:
-                if keep is not None:
-                    keep.append(t)
-                t = t()
+                if kind == "edge":
+                    named += [("avoid_boundary", ab_arg), ("avoid_edges", excl_arg)]
+                else:
+                    named += [(EXKW[kind], excl_arg)]
+            t = build(cls, named)
+            if keep is not None:
+                keep.append(t)
+            t = t()
             t = again(t)
             res["err"] = None
             res.update(tree_obs(t, ro, unstable))
@@ -269,12 +321,8 @@ def run_case(case, meshes=None, keep=None):
     elif op == "forest":
         raw, poly = raw_slots(m_obs, spec, kind, excl_set if kind == "face" else None, True)
         res.update({"raw": raw, "polyline": poly, "n": len(raw)})
-        if kind == "edge":
-            f = T.EdgeSpanningForest(m)
-        elif kind == "face":
-            f = T.FaceSpanningForest(m) if omit else T.FaceSpanningForest(m, excl_set)
-        else:
-            f = T.CellSpanningForest(m)
+        cls = {"edge": T.EdgeSpanningForest, "face": T.FaceSpanningForest, "cell": T.CellSpanningForest}[kind]
+        f = build(cls, [("forbidden_edges", excl_arg)] if (kind == "face" and not omit) else [])
         if keep is not None:
             keep.append(f)
         f = f()
@@ -283,28 +331,36 @@ def run_case(case, meshes=None, keep=None):
         res.update(forest_obs(f, ro, unstable))
     elif op == "kruskal":
         from mouette.mesh.datatypes import PolyLine
+        import numpy as np
         poly = isinstance(m, PolyLine)
         res["polyline"] = poly
         res["n"] = len(m.vertices)
         res["bord"] = [False if poly else bool(m_obs.is_edge_on_border(int(a), int(b))) for a, b in m_obs.edges]
         w = case["weights"]
         if isinstance(w, dict):
+            # the custom weights, possibly scaled by a power of two (exact: the order and the minimum forests are the
+            # same) and stored as python float / int / numpy.float32 / numpy.float64
+            scale = 2.0 ** int(w.get("scale_exp", 0))
+            num = {"float": float, "float32": np.float32, "float64": np.float64, "int": int}[w.get("num", "float")]
             vals = w["values"]
+            if w.get("num") == "int":
+                assert all(float(v) == int(v) for v in vals) and scale >= 1
+            conv = [num(v * scale) for v in vals]
             if w["as"] == "dict":
-                weights = {e: vals[e] for e in range(len(m.edges))}
+                weights = {(np.int64(e) if w.get("np_keys") else e): conv[e] for e in range(len(m.edges))}
             else:
                 weights = m.edges.create_attribute("c10w", float, dense=(w["as"] == "attr_dense"))
                 for e in range(len(m.edges)):
-                    weights[e] = vals[e]
+                    weights[e] = float(conv[e])
             res["custom"] = [vals[e] if e < len(vals) else 0 for e in range(len(m.edges))]
+            res["custom_float"] = [float(conv[e]) for e in range(len(m.edges))]
         else:
             weights = w
         try:
-            if omit:
-                t = T.EdgeMinimalSpanningTree(m, root_arg)
-            else:
-                t = T.EdgeMinimalSpanningTree(m, root_arg, avoid_boundary=bool(case.get("avoid_boundary", False)),
-                                              weights=weights)
+            named = [("starting_vertex", root_arg)]
+            if not omit:
+                named += [("avoid_boundary", ab_arg), ("weights", weights)]
+            t = build(T.EdgeMinimalSpanningTree, named)
             if keep is not None:
                 keep.append(t)
             t = t()
@@ -380,6 +436,12 @@ def run_session(case):
             if ok and (None if ex0 is None else set(ex0)) != want:
                 res.setdefault("unstable", []).append(
                     "exclusion set right after construction is %s, the object was given %s" % (None if ex0 is None else sorted(ex0), None if want is None else sorted(want)))
+        elif step["do"] == "move":
+            # the mesh is edited (vertices moved) between two objects: later objects see the new geometry only
+            import mouette as M
+            mm = meshes[step["mesh_id"]][0]
+            for i, v in enumerate(step["V"]):
+                mm.vertices[i] = M.Vec(float(v[0]), float(v[1]), float(v[2]))
         elif step["do"] == "mutate":
             k = step["obj"]
             tgt = excl_of(objs[k]) if k < len(objs) and objs[k] is not None else None
@@ -398,6 +460,13 @@ def run_session(case):
             m, m_obs = meshes[sub["mesh_id"]]
             if sub["op"] != "forest":
                 n_el = len(obj.parent)
+                if step.get("fail_first"):
+                    # a run that legitimately raises (the root is not an element), then the object is used again
+                    obj.root = n_el + 2
+                    try:
+                        obj.compute()
+                    except Exception:  # noqa
+                        pass
                 obj.root = as_repr(step["root"] % n_el, step.get("root_repr"))
             tgt = excl_of(obj)          # the caller's live set (the constructor stores the object it was given)
             if tgt is not None:
@@ -423,6 +492,10 @@ def run_session(case):
             else:
                 res.update(tree_obs(obj, step.get("read_order", 0), unstable))
                 res["update"] = {"obj": k, "root": int(obj.root), "excl": None if tgt is None else sorted(int(x) for x in tgt)}
+            if sub["op"] == "kruskal":
+                from mouette.attributes import edge_length
+                L = edge_length(m, persistent=False)
+                res["len_float"] = [float(L[e]) for e in range(len(m.edges))]
             res["unstable"] = unstable
             snaps[k] = obj_snapshot(obj)
             results.append(res)
